@@ -1014,6 +1014,10 @@ class NetCDFRead(IORead):
             "new_dimension_sizes": {},
             "formula_terms": {},
             "compression": {},
+            # Compression parameters of geometry node coordinate and
+            # interior ring variables, keyed by (netCDF dimension,
+            # netCDF variable)
+            "geometry_compression": {},
             # Verbose?
             "verbose": verbose,
             # Warnings?
@@ -2766,6 +2770,17 @@ class NetCDFRead(IORead):
             nodes_per_geometry, self._ncdim_abspath(node_dimension)
         )
 
+        # Another geometry container may already have defined a
+        # compression of this node dimension (its parameters have been
+        # recorded per netCDF variable in 'geometry_compression'):
+        # remove those which this container is about to define
+        for key in (
+            "ragged_contiguous",
+            "ragged_indexed_contiguous",
+            "netCDF_variables",
+        ):
+            g["compression"].get(node_dimension, {}).pop(key, None)
+
         if part_node_count is None:
             # --------------------------------------------------------
             # There is no part_count variable, i.e. cell has exactly
@@ -2794,6 +2809,11 @@ class NetCDFRead(IORead):
 
             part_dimension = g["variable_dimensions"][part_node_count][0]
             g["geometries"][geometry_ncvar]["part_dimension"] = part_dimension
+
+            # Likewise for the part dimension
+            g["compression"].get(part_dimension, {}).pop(
+                "netCDF_variables", None
+            )
 
             parts = self._create_Count(
                 ncvar=part_node_count, ncdim=part_dimension
@@ -2881,6 +2901,13 @@ class NetCDFRead(IORead):
             if parsed_interior_ring:
                 interior_ring = parsed_interior_ring[0]
                 part_dimension = g["variable_dimensions"][interior_ring][0]
+
+                # The interior ring variable is decompressed with the
+                # index of this container, even if another container
+                # has already used it
+                g["geometry_compression"].pop(
+                    (part_dimension, interior_ring), None
+                )
                 i_r = self._create_InteriorRing(
                     ncvar=interior_ring, ncdim=part_dimension
                 )
@@ -2905,6 +2932,23 @@ class NetCDFRead(IORead):
         # Do not attempt to create field constructs from netCDF node
         # coordinate variables
         g["do_not_create_field"].update(parsed_node_coordinates)
+
+        # Record the compression parameters of this container's node
+        # coordinate and interior ring variables per netCDF variable,
+        # because another geometry container may span the same node or
+        # part dimension with different counts
+        for ncdim, ncvars in (
+            (node_dimension, parsed_node_coordinates),
+            (part_dimension, parsed_interior_ring),
+        ):
+            c = g["compression"].get(ncdim)
+            if c is None:
+                continue
+
+            c = c.copy()
+            c["netCDF_variables"] = set(ncvars)
+            for ncvar in ncvars:
+                g["geometry_compression"][(ncdim, ncvar)] = c
 
         g["geometries"][geometry_ncvar].update(
             {
@@ -6557,7 +6601,9 @@ class NetCDFRead(IORead):
 
                 # This dimension represents two or more compressed
                 # dimensions
-                c = compression[ncdim]
+                c = g["geometry_compression"].get(
+                    (ncdim, ncvar), compression[ncdim]
+                )
                 if ncvar not in c.get("netCDF_variables", (ncvar,)):
                     # This variable is not compressed, even though
                     # it spans a dimension that is compressed for
@@ -7533,7 +7579,9 @@ class NetCDFRead(IORead):
                 if ncdim not in compression:
                     continue
 
-                c = compression[ncdim]
+                c = g["geometry_compression"].get(
+                    (ncdim, ncvar), compression[ncdim]
+                )
 
                 if ncvar not in c.get("netCDF_variables", (ncvar,)):
                     # This variable is not compressed, even though it
